@@ -675,6 +675,25 @@ def family_cases():
       "async def f(v, w, xs, kw):\n  async for v in xs:\n    await g(%s)\n",
       "def f(v, w, xs, kw):\n  match v:\n    case [w, *_]:\n      return %s\n    case _:\n      return None\n",
   ]
+  # constant container literals around the size thresholds of constant folding / MAX_VAR_SIZE (64): every size just
+  # below, at and above them, one or several element types, the odd element at the first / 63rd / 64th / 65th / last
+  # position, as list, tuple, set, dict keys and dict values, at module level and inside a function
+  def elems(n, odd_at, odd):
+    return [odd if i in odd_at else str(i) for i in range(n)]
+  big = []
+  for n in (15, 16, 17, 63, 64, 65, 100, 257):
+    for odd_at, odd in (((), None), ((0,), "'s'"), ((n - 1,), "'s'"), ((62, 63, 64), "None"), ((63,), "2.5"), ((64,), "'s'"),
+                        (tuple(range(0, n, 2)), "'s%d'" % n), ((n // 2,), "[1]"), ((n // 2,), "(1, 's')")):
+      es = elems(n, set(i for i in odd_at if i < n), odd)
+      body = ", ".join(es)
+      big.append("L%d = [%s]\nT%d = (%s,)\nS%d = {%s}\nK%d = {%s}\nV%d = {%s}\n"
+                 "def fl%d():\n  x = [%s]\n  return x[0], x[-1], len(x)\n" % (
+                     n, body, n, body, n, ", ".join(e for e in es if not e.startswith("[")), n,
+                     ", ".join("%s: %d" % (e, i) for i, e in enumerate(es) if not e.startswith("[")), n,
+                     ", ".join("%d: %s" % (i, e) for i, e in enumerate(es)), n, body))
+  for i in range(0, len(big), 3):
+    out.append(("family-large-literal", "".join(
+        b.replace("L%s" % "", "L%s" % "") for b in big[i:i + 3]).replace("\ndef fl", "\ndef fl")))
   pre = "def g(*a, **k): return a\n"
   for ci, ctx in enumerate(ctxs):
     for i in range(0, len(forms), 6):
